@@ -16,6 +16,7 @@ SPEC = {
         "module": "LV.Channel.Props_C01",
         "targets": ["theories/Channel/Props_C01.vo", "theories/Channel/Exec.vo",
                     "theories/Channel/Examples.vo", "theories/Channel/GenBridge.vo"],
+        "view_stage": True,
         "theorems": ["C01_conservation", "C01_conservation_inflight", "C01_conservation_cut",
                      "C01_balance_formula", "C01_agreement", "C01_mirror_at_quiescence",
                      "C01_window", "C01_wf_reachable", "C01_wf_only_money",
@@ -23,7 +24,7 @@ SPEC = {
         "env": {"VERIF_CRASH": "0", "VERIF_CUT": "0"},
         "predicates": ["conservation", "mirror", "agreement",
                        "balance_moves_only_by_htlc", "window", "no_errors",
-                       "rejected_no_change", "logs_ordered", "drained"],
+                       "rejected_no_change", "logs_ordered", "drained", "heights_sane"],
         "with_reload": False, "with_cut": False,
     },
     "C02": {
@@ -34,8 +35,9 @@ SPEC = {
                      "C02_revoke_advances_tail", "C02_tail_height_monotone",
                      "C02_restore_keeps_tail"],
         "env": {"VERIF_CRASH": "1", "VERIF_CUT": "1"},
-        "predicates": ["reload_consistent", "disk_tables", "crashin_atomic", "release_rule",
-                       "side_harmless", "no_errors", "conservation", "agreement"],
+        "predicates": ["reload_consistent", "call_atomicity", "disk_tables", "crashin_atomic", "release_rule",
+                       "side_harmless", "no_errors", "conservation", "agreement", "heights_sane"],
+        "view_stage": True,
         "with_reload": True, "with_cut": True,
     },
     # release-rule half of C06, decided on real channels (called from props/c06.py)
@@ -65,17 +67,104 @@ SPEC = {
 }
 
 
+VIEW_MODULE = "LV.Channel.Props_C01view"
+VIEW_TARGETS = ["theories/Channel/Props_C01view.vo", "theories/Channel/ViewExec.vo",
+                "theories/Channel/ViewExamples.vo"]
+VIEW_THEOREMS = None      # filled from Props_C01view.v (every "Theorem C01view_..." of the file)
+
+
+def _view_theorems():
+    import re
+    path = os.path.join(os.path.dirname(os.path.dirname(os.path.abspath(__file__))),
+                        "coq", "theories", "Channel", "Props_C01view.v")
+    try:
+        return re.findall(r"^Theorem\s+(C01view_\w+)", open(path).read(), re.M)
+    except OSError:
+        return []
+
+
+def run_view_stage(ctx, pid, sp, rows):
+    """C01view: the INCREMENTAL bookkeeping of lnwallet (add/remove commit heights per log
+    entry, evaluateHTLCView, compactLogs, restoreStateLogs) replayed through Channel/View.v
+    and compared per step with the real logs (Channel/ViewExec.v).  Returns a cov dict."""
+    if not os.path.exists(os.path.join(os.path.dirname(os.path.dirname(os.path.abspath(__file__))),
+                                       "coq", "theories", "Channel", "ViewExec.v")):
+        return {}
+    terms, idx, used, reasons = [], [], 0, {}
+    for ri, row in enumerate(rows):
+        is_corpus = bool(row.get("script"))
+        t, n, why = cm.view_case_term(row, with_reload=sp["with_reload"] or is_corpus,
+                                      with_cut=sp["with_cut"] or is_corpus,
+                                      expect_fail=cc.expected_failure(row))
+        if why:
+            reasons[why] = reasons.get(why, 0) + 1
+        if t is None:
+            continue
+        terms.append(t)
+        idx.append(ri)
+        used += n
+    if not terms:
+        ctx.violation("harness_failed", "TestVerifChan emitted no height-log dumps (key \"hl\")",
+                      {"rows": len(rows)}, signature="view-no-hl", failing_input=False)
+        return {}
+    ok, bad, logs = coq_mismatches(ctx.uid("view"), cm.VIEW_IMPORTS, terms, mism="vmismatches",
+                                   shard=max(2, len(terms) // NCPU + 1), timeout=2400)
+    if not ok:
+        ctx.violation("correspondence_mismatch", "Channel.ViewExec (model evaluation failed)",
+                      {"logs": logs[:3]}, signature="view-eval", failing_input=False)
+    for ci, codes in bad[:3]:
+        row = rows[idx[ci]]
+        loc = cm.view_locate(row, codes)
+        stepi = loc["step_index"]
+        loc.update({"case": row.get("case"), "chan_type": row.get("chan_type"),
+                    "code_meaning": cm.VIEW_CODES,
+                    "script": {"chan_type": row.get("chan_type"),
+                               "ops": [s["op"] for s in row["steps"][:stepi + 1]]}})
+        ctx.violation("correspondence_mismatch", "Channel.ViewExec.check_case (incremental height bookkeeping)",
+                      loc, signature="chan view mismatch code=%s" % (codes[1:2] if len(codes) > 1 else "?"),
+                      failing_input=False)
+    nent = 0
+    for row in rows:
+        for st in row["steps"]:
+            hl = st.get("hl") or {}
+            for p in ("a", "b"):
+                if isinstance(hl.get(p), dict):
+                    nent += len(hl[p]["own"]) + len(hl[p]["peer"])
+    return {"view_stage": {"cases": len(terms), "steps_checked_against_incremental_model": used,
+                           "log_entries_compared(4 heights each)": nent,
+                           "truncation_reasons": reasons, "mismatches": len(bad)}}
+
+
 def run_prop(ctx, pid, nested=False):
     """nested=True: run as an additional stage of another property's check (C06's
     release rule): coverage goes under ctx.cov["channel_stage"], the proof-stage
     numbers of the caller are added to, not replaced."""
     sp = SPEC[pid]
     saved = dict(ctx.cov) if nested else None
-    pr = ctx.proof_stage(sp["module"], sp["theorems"], sp["targets"], extra_trusted=[
+    view_on = bool(sp.get("view_stage")) and not nested and bool(_view_theorems())
+    pr = ctx.proof_stage(sp["module"], sp["theorems"],
+                         sp["targets"] + (VIEW_TARGETS if view_on else []), extra_trusted=[
         "channel modelled at cut level (two append-only update logs + declarative commit_of); the "
-        "incremental add/remove-height bookkeeping of lnwallet is tied by correspondence only",
+        "incremental add/remove-height bookkeeping of lnwallet is " +
+        ("modelled by Channel/View.v (hand translation of evaluateHTLCView / computeView / compactLogs / "
+         "restoreStateLogs), tied to the real code per step and per log entry by Channel/ViewExec.v; the "
+         "refinement View -> cut model is proved only in part (notes/C01view.md)" if view_on
+         else "tied by correspondence only"),
         "transactions, scripts, sighashes and signatures are not modelled: the real code signs and "
         "verifies every commitment and HTLC signature in the harness (sig_invalid = failure)"])
+    if view_on:
+        # the theorems of the incremental layer live in their own module
+        vthms = _view_theorems()
+        vasm = print_assumptions(ctx.uid("viewpa"), VIEW_MODULE, vthms)
+        ctx.cov["obligations"] = (ctx.cov.get("obligations") or 0) + len(vthms)
+        ctx.cov["discharged"] = (ctx.cov.get("discharged") or 0) + \
+            sum(1 for a in vasm.values() if a is not None)
+        ctx.cov.setdefault("theorems", {}).update(
+            {t: (a if a is not None else "MISSING/BROKEN") for t, a in vasm.items()})
+        for t, a in vasm.items():
+            if a is None:
+                pr["ok"] = False
+                pr["broken"].append(t)
     env = dict(sp["env"])
     if ctx.thorough:
         env["VERIF_MAXSTEPS"] = "120"
@@ -133,6 +222,9 @@ def run_prop(ctx, pid, nested=False):
                                   "ops": [s["op"] for s in row["steps"][:stepi + 1]]}},
                       signature="chan mismatch code=%s" % (codes[1:] if len(codes) > 1 else "?"),
                       failing_input=False)
+    view_cov = {}
+    if view_on:
+        view_cov = run_view_stage(ctx, pid, sp, rows)
     if ctx.thorough and pr["ok"] and not nested:
         okc, outc = ctx.coqchk([sp["module"]])
         if not okc:
@@ -167,6 +259,7 @@ def run_prop(ctx, pid, nested=False):
         "samples": [[s["op"] for s in rows[0]["steps"][:12]]] if rows else [],
         "correspondence_mismatches": len(bad),
     })
+    target.update(view_cov)
     ctx.assumptions += [
         "settle/fail are issued only for HTLCs locked in on both sides (BOLT-2 / lnd link discipline)",
         "a revoke_and_ack is processed only when no received commitment is awaiting revocation "
